@@ -88,6 +88,20 @@ def check_pair(sh, A, B, da, db, full=True):
 				sh.violation('jaccarddist-strided-view', dict(A=list(A), B=list(B), da=da, db=db, view_of_A=ka, view_of_B=kb), exp, gv)
 				return
 		sh.count('strided_or_offset_views')
+		# the same values in the other byte order: refusing them is fine, a number must be the exact one
+		for which in ('A', 'B', 'both'):
+			xa = a.astype(a.dtype.newbyteorder('>')) if which in ('A', 'both') else a
+			xb = b.astype(b.dtype.newbyteorder('>')) if which in ('B', 'both') else b
+			sh.evals += 1
+			try:
+				gv = f32bits(jaccarddist(xa, xb))
+			except Exception:
+				sh.count('non_native_byte_order_refused')
+				continue
+			if gv != exp:
+				sh.violation('jaccarddist-byte-order', dict(A=list(A), B=list(B), da=da, db=db, big_endian=which), exp, gv)
+				return
+			sh.count('non_native_byte_order_accepted_exact')
 	if full:
 		j = jaccard(a, b)
 		sh.evals += 1
